@@ -26,7 +26,8 @@ from vf import audit, cachelib, canon, env, gen, harness, synth
 
 ID = "C09"
 LEVEL = "fault_enumeration"
-RULE = ("products: one level-1.5 and one level-1.1 product with 2 images (local files). prefix states: lengths "
+RULE = ("(every third repair is preceded by a wipe of the product's cache directory) "
+        "products: one level-1.5 and one level-1.1 product with 2 images (local files). prefix states: lengths "
         "{0,1,2,len/2,len-2,len-1,len} + every cut next to / inside a non-ASCII byte + every 48th (quick) or every length (thorough) x location {user, adjacent, both} x image; "
         "real kills: 12 (quick) / 160 (thorough) children over the three modes at sampled limits; two-writer interleavings with "
         "2 (quick) / up to 4 (thorough) chunks. evaluations = states read back; non-trivial = state that is not the "
